@@ -11,6 +11,7 @@ package shellfuncsfile
 //@   ghost n int = 0
 //@   on call maps.Clone(m) (r): assert(m == defaultFilters && n == 0, "every_converter_gets_its_own_copy_of_the_default_filter_table"); cl = r; n++
 //@   ensures usable: c != nil
+//@   ensures a_converter_of_its_own: fresh(c)
 //@   ensures own_filter_table: n == 1 && c.filters == cl && c.filters != defaultFilters
 
 //@ type Converter as c
